@@ -16,7 +16,7 @@ Definition cat_eqb (a b : cat) : bool :=
 Definition cat_name (c : cat) : string := match c with CRaises => "raises" | CSafe => "safe" | CPure => "pure" | CHas => "has" | COther => "other" end.
 Definition brackets_optional (c : cat) : bool := match c with CSafe | CPure => true | _ => false end.
 
-Record contract := { c_cat : cat; c_line : nat;
+Record contract := { c_cat : cat; c_line : nat; c_last : nat;   (* first and last line of the decorator *)
                      c_excs : list string;        (* contract.exceptions, as _exc_as_str shows them *)
                      c_markers : list string }.   (* the string-valued arguments *)
 Inductive deco := DName (ln : nat) (name : string) | DOther (ln : nat).
@@ -26,6 +26,8 @@ Record func := { f_line : nat; f_col : nat; f_decos : list deco; f_contracts : l
                  f_new_markers : list string }.   (* sorted(set of undeclared markers) *)
 Record types := { t_raises : bool; t_has : bool; t_safe : bool; t_pure : bool; t_import : bool }.
 Inductive stmt := SImport (ln : nat) (names : list string) | SImportFrom (ln : nat) (modname : string) | SOther.
+Record head := { doc_end : option nat;      (* last line of the module docstring *)
+                 shebang : bool }.           (* the file starts with #! *)
 
 (* planner-level mutations keep the structure of InsertContract (the merge into @deal.pure needs it) *)
 Inductive pmut := PAppend (l : nat) (t : string) | PInsertText (l : nat) (t : string)
@@ -60,6 +62,9 @@ Definition get_insert_line (f : func) : nat := gil (f_line f) (f_decos f) (f_lin
 Definition has_contract (f : func) (cs : list cat) : bool := existsb (fun c => existsb (cat_eqb (c_cat c)) cs) (f_contracts f).
 Definition nonempty {X} (l : list X) : bool := match l with [] => false | _ => true end.
 
+(* _remove_contract: every line of the decorator, first line first *)
+Definition remove_contract (c : contract) : list pmut := map PRemove (seq (c_line c) (S (c_last c - c_line c))).
+
 (* _mutations_excs *)
 Definition exc_cat (c : contract) : bool := match c_cat c with CRaises | CSafe | CPure => true | _ => false end.
 Definition declared_excs (f : func) : list string := flat_map c_excs (filter exc_cat (f_contracts f)).
@@ -73,23 +78,36 @@ Definition mutations_excs (ty : types) (f : func) : list pmut :=
           else [PInsertC il CSafe [] (f_col f)]
   | excs => if negb (t_raises ty) then []
             else flat_map (fun c => if exc_cat c
-                                    then PRemove (c_line c) :: (if cat_eqb (c_cat c) CPure then [PInsertC il CHas [] (f_col f)] else [])
+                                    then remove_contract c ++ (if cat_eqb (c_cat c) CPure then [PInsertC il CHas [] (f_col f)] else [])
                                     else []) (f_contracts f)
                  ++ [PInsertC il CRaises (declared ++ excs) (f_col f)]
   end.
 
-(* _mutations_markers *)
+(* _mutations_markers: reads and edits self.mutations (acc) while list.extend consumes the generator; returns the new self.mutations *)
 Definition has_cat (c : contract) : bool := match c_cat c with CHas | CPure => true | _ => false end.
 Definition declared_markers (f : func) : list string := flat_map c_markers (filter has_cat (f_contracts f)).
-Definition mutations_markers (quote : string) (ty : types) (f : func) : list pmut :=
-  if negb (t_has ty || t_pure ty) then [] else
+Definition pmut_eqb (a b : pmut) : bool :=
+  match a, b with
+  | PAppend l t, PAppend l' t' | PInsertText l t, PInsertText l' t' => Nat.eqb l l' && String.eqb t t'
+  | PInsertC l c a i, PInsertC l' c' a' i' => Nat.eqb l l' && cat_eqb c c' && Nat.eqb i i' && Nat.eqb (List.length a) (List.length a') && forallb (fun p => String.eqb (fst p) (snd p)) (combine a a')
+  | PRemove l, PRemove l' => Nat.eqb l l'
+  | _, _ => false
+  end.
+Fixpoint remove_first (m : pmut) (l : list pmut) : list pmut :=
+  match l with [] => [] | x :: t => if pmut_eqb x m then t else x :: remove_first m t end.
+Definition markers_step (il col : nat) (acc : list pmut) (c : contract) : list pmut :=
+  if negb (has_cat c) then acc
+  else if existsb (pmut_eqb (PRemove (c_line c))) acc
+       then remove_first (PInsertC il CHas [] col) acc          (* already split by _mutations_excs: its empty has is replaced *)
+       else acc ++ remove_contract c ++ (if cat_eqb (c_cat c) CPure then [PInsertC il CSafe [] col] else []).
+Definition collect_markers (quote : string) (ty : types) (f : func) (acc : list pmut) : list pmut :=
+  if negb (t_has ty || t_pure ty) then acc else
   let il := get_insert_line f in
   let declared := declared_markers f in
   match f_new_markers f with
-  | [] => if has_contract f [CPure; CHas] then [] else [PInsertC il CHas [] (f_col f)]
-  | markers => flat_map (fun c => if has_cat c
-                                  then PRemove (c_line c) :: (if cat_eqb (c_cat c) CPure then [PInsertC il CSafe [] (f_col f)] else [])
-                                  else []) (f_contracts f)
+  | [] => if has_contract f [CPure; CHas] then acc else acc ++ [PInsertC il CHas [] (f_col f)]
+  | markers => if negb (t_has ty) then acc else
+               fold_left (markers_step il (f_col f)) (f_contracts f) acc
                ++ [PInsertC il CHas (map (fun a => (quote ++ a ++ quote)%string) (declared ++ markers)) (f_col f)]
   end.
 
@@ -104,7 +122,7 @@ Fixpoint mutations_property (acc : list pmut) (ds : list deco) : list pmut :=
   | DOther _ :: r => mutations_property acc r
   end.
 Definition collect (quote : string) (ty : types) (acc : list pmut) (f : func) : list pmut :=
-  mutations_property (acc ++ mutations_excs ty f ++ mutations_markers quote ty f) (f_decos f).
+  collect_markers quote ty f (acc ++ mutations_excs ty f).
 
 (* _mutations_pure: None = the assertion 'unexpected contract generated' fails *)
 Definition is_ic (m : pmut) (p : cat -> list string -> bool) : bool := match m with PInsertC _ c a _ => p c a | _ => false end.
@@ -130,23 +148,25 @@ Definition mutations_pure (ty : types) (ms : list pmut) : option (list pmut) :=
 (* _mutations_import *)
 Definition imports_deal (body : list stmt) : bool :=
   existsb (fun s => match s with SImport _ names => existsb (String.eqb "deal") names | _ => false end) body.
-Definition import_line (body : list stmt) : nat :=
+Definition import_start (h : head) : nat := match doc_end h with Some e => e + 1 | None => if shebang h then 2 else 1 end.
+Definition import_line (h : head) (body : list stmt) : nat :=
   fold_left (fun line s => match s with
                            | SImport ln _ => ln + 1
                            | SImportFrom ln m => if String.eqb m "__future__" then ln + 1 else line
-                           | SOther => line end) body 1.
-Definition mutations_import (ty : types) (body : list stmt) (ms : list pmut) : list pmut :=
+                           | SOther => line end) body (import_start h).
+Definition mutations_import (ty : types) (h : head) (body : list stmt) (ms : list pmut) : list pmut :=
   if negb (t_import ty) then [] else
-  match ms with [] => [] | _ => if imports_deal body then [] else [PInsertText (import_line body) "import deal"] end.
+  match ms with [] => [] | _ => if imports_deal body then [] else [PInsertText (import_line h body) "import deal"] end.
 
 (* transform(): the mutations handed to _apply_mutations *)
-Definition plan (quote : string) (ty : types) (body : list stmt) (fs : list func) : option (list pmut) :=
+Definition plan (quote : string) (ty : types) (h : head) (body : list stmt) (fs : list func) : option (list pmut) :=
   match mutations_pure ty (fold_left (collect quote ty) fs []) with
   | None => None
-  | Some ms => Some (ms ++ mutations_import ty body ms)
+  | Some ms => let ms2 := fold_left (fun acc f => mutations_property acc (f_decos f)) fs ms in
+               Some (ms2 ++ mutations_import ty h body ms2)
   end.
-Definition transform (quote : string) (ty : types) (body : list stmt) (fs : list func) (ls : list string) : option (list string) :=
-  match plan quote ty body fs with
+Definition transform (quote : string) (ty : types) (h : head) (body : list stmt) (fs : list func) (ls : list string) : option (list string) :=
+  match plan quote ty h body fs with
   | None => None
   | Some [] => Some ls
   | Some ms => Some (apply_mutations (map lower ms) ls)
